@@ -189,7 +189,8 @@ def analyze(src, do_exec=True):
                             "value_src": value_src(src, node.value) if node.value is not None else None,
                             "used_names": sorted(set(names_in(node.annotation)))})
         elif isinstance(node, (ast.FunctionDef, ast.AsyncFunctionDef)):
-            funcs.append({"name": node.name, "line": node.lineno})
+            funcs.append({"name": node.name, "line": node.lineno,
+                          "used_names": sorted({n.id for n in ast.walk(node) if isinstance(n, ast.Name)})})
         elif isinstance(node, ast.Expr) and isinstance(node.value, ast.Constant):
             pass
         else:
